@@ -1,5 +1,5 @@
 -------------------------------- MODULE Pub --------------------------------
-(* Layer P (extension "publisher", host C13): the life cycle of core/discov.Publisher as a
+(* Layer P (extension "discovpub", host C13): the life cycle of core/discov.Publisher as a
    protocol between the publisher and its environment, the etcd client, phrased over
    observable events only.
 
@@ -17,7 +17,7 @@
 
    Observable events
      API          kaCall kaRet(err)  pauseCall pauseRet  resumeCall resumeRet  stopCall stopRet
-     client calls grant(ttl, ok, L)  put(L, kid, ok)  kalive(L, ok)  revoke(L, ok)
+     client calls grant(ttl, ok, L)  put(L, key, kid, val, ok)  kalive(L, ok)  revoke(L, ok)
                   (made by the publisher on the etcd client; the environment chooses ok / the lease)
      environment  close(L)  the keep-alive stream of L ends (lease expired, connection lost,
                             client context cancelled);  karesp(L)  a keep-alive response arrives
@@ -29,7 +29,8 @@
 
    What is demanded (guards):
      Order          Grant, Put, KeepAlive in this order with the lease just granted, ttl = TimeToLive,
-                    key id = the configured id or else the lease
+                    key = <configured key>/<the configured id or else the lease>, value = the configured
+                    value
      OneAtATime     a Grant is issued only when the previous registration has been revoked (or was
                     never completed): never two registrations of one publisher
      RevokeCurrent  Revoke is issued exactly once per completed registration, for the current
@@ -46,8 +47,7 @@
 EXTENDS Integers, FiniteSets, Sequences, TLC
 
 VARIABLES
-  pid,     \* configured id (WithId), 0 = none
-  ttl,     \* TimeToLive
+  cf,      \* what the publisher was made with: [id |-> WithId or 0, ttl |-> TimeToLive, key, val]
   ctl,     \* where the publisher's thread of control is
   quit,    \* "open" | "closing" (Stop called, not returned) | "closed"
   cur,     \* p.lease: lease of the current registration (attempt), 0 = none
@@ -56,7 +56,7 @@ VARIABLES
   pw, pt,  \* Pause callers: blocked / taken by the loop and not yet returned
   rw, rt   \* Resume callers
 
-pvars == <<pid, ttl, ctl, quit, cur, gl, kac, pw, pt, rw, rt>>
+pvars == <<cf, ctl, quit, cur, gl, kac, pw, pt, rw, rt>>
 
 Ctl == {"idle", "kgrant", "kput", "kka", "alive", "rvlost", "rvpause", "rvquit", "paused",
         "tick", "rgrant", "rput", "rka"}
@@ -67,11 +67,12 @@ Upd(f, x, v) == [y \in DOMAIN f \cup {x} |-> IF y = x THEN v ELSE f[y]]
 Held(L) == L \in Leases /\ gl[L].st = "held"
 Registered == {L \in Leases : gl[L].st = "held" /\ gl[L].key # 0}
 
-PStart(id, t) ==
-  /\ pid = id /\ ttl = t /\ ctl = "idle" /\ quit = "open" /\ cur = 0 /\ gl = EmptyFn
+Cf(id, t, k, v) == [id |-> id, ttl |-> t, key |-> k, val |-> v]
+PStart(c) ==
+  /\ cf = c /\ ctl = "idle" /\ quit = "open" /\ cur = 0 /\ gl = EmptyFn
   /\ kac = "none" /\ pw = 0 /\ pt = 0 /\ rw = 0 /\ rt = 0
-PReset(id, t) ==
-  /\ pid' = id /\ ttl' = t /\ ctl' = "idle" /\ quit' = "open" /\ cur' = 0 /\ gl' = EmptyFn
+PReset(c) ==
+  /\ cf' = c /\ ctl' = "idle" /\ quit' = "open" /\ cur' = 0 /\ gl' = EmptyFn
   /\ kac' = "none" /\ pw' = 0 /\ pt' = 0 /\ rw' = 0 /\ rt' = 0
 
 \* after a failed step: the KeepAlive() call returns the error / the loop waits for the next tick
@@ -80,31 +81,31 @@ KacFailed(c) == IF c \in {"kgrant", "kput", "kka"} THEN "err" ELSE kac
 
 \* ---------------------------------------------------------------- API events
 KaCallOK == ctl = "idle" /\ kac = "none"
-KaCallEff == ctl' = "kgrant" /\ kac' = "run" /\ UNCHANGED <<pid, ttl, quit, cur, gl, pw, pt, rw, rt>>
+KaCallEff == ctl' = "kgrant" /\ kac' = "run" /\ UNCHANGED <<cf, quit, cur, gl, pw, pt, rw, rt>>
 
 KaRetOK(err) == kac = (IF err THEN "err" ELSE "ok")
-KaRetEff == kac' = "none" /\ UNCHANGED <<pid, ttl, ctl, quit, cur, gl, pw, pt, rw, rt>>
+KaRetEff == kac' = "none" /\ UNCHANGED <<cf, ctl, quit, cur, gl, pw, pt, rw, rt>>
 
 PauseCallOK == TRUE
-PauseCallEff == pw' = pw + 1 /\ UNCHANGED <<pid, ttl, ctl, quit, cur, gl, kac, pt, rw, rt>>
+PauseCallEff == pw' = pw + 1 /\ UNCHANGED <<cf, ctl, quit, cur, gl, kac, pt, rw, rt>>
 PauseRetOK == pt > 0                                                       \* Callers
-PauseRetEff == pt' = pt - 1 /\ UNCHANGED <<pid, ttl, ctl, quit, cur, gl, kac, pw, rw, rt>>
+PauseRetEff == pt' = pt - 1 /\ UNCHANGED <<cf, ctl, quit, cur, gl, kac, pw, rw, rt>>
 
 ResumeCallOK == TRUE
-ResumeCallEff == rw' = rw + 1 /\ UNCHANGED <<pid, ttl, ctl, quit, cur, gl, kac, pw, pt, rt>>
+ResumeCallEff == rw' = rw + 1 /\ UNCHANGED <<cf, ctl, quit, cur, gl, kac, pw, pt, rt>>
 ResumeRetOK == rt > 0                                                      \* Callers
-ResumeRetEff == rt' = rt - 1 /\ UNCHANGED <<pid, ttl, ctl, quit, cur, gl, kac, pw, pt, rw>>
+ResumeRetEff == rt' = rt - 1 /\ UNCHANGED <<cf, ctl, quit, cur, gl, kac, pw, pt, rw>>
 
 StopCallOK == TRUE
 StopCallEff == quit' = (IF quit = "open" THEN "closing" ELSE quit)
-               /\ UNCHANGED <<pid, ttl, ctl, cur, gl, kac, pw, pt, rw, rt>>
+               /\ UNCHANGED <<cf, ctl, cur, gl, kac, pw, pt, rw, rt>>
 StopRetOK == quit # "open"
-StopRetEff == quit' = "closed" /\ UNCHANGED <<pid, ttl, ctl, cur, gl, kac, pw, pt, rw, rt>>
+StopRetEff == quit' = "closed" /\ UNCHANGED <<cf, ctl, cur, gl, kac, pw, pt, rw, rt>>
 
 \* ---------------------------------------------------------------- client calls
 GrantOK(t, ok, L) ==
   /\ ctl \in {"kgrant", "rgrant"}                                          \* Paused, Stopped: see Tick
-  /\ t = ttl                                                               \* Order
+  /\ t = cf.ttl                                                           \* Order
   /\ cur = 0 \/ ~Held(cur)                                                 \* OneAtATime
   /\ ok => L \notin Leases /\ L > 0                                        \* (environment: fresh lease)
 GrantEff(ok, L) ==
@@ -114,18 +115,19 @@ GrantEff(ok, L) ==
                 /\ kac' = kac
           ELSE /\ gl' = gl /\ cur' = 0
                /\ ctl' = Failed(ctl) /\ kac' = KacFailed(ctl)
-  /\ UNCHANGED <<pid, ttl, quit, pw, pt, rw, rt>>
+  /\ UNCHANGED <<cf, quit, pw, pt, rw, rt>>
 
-PutOK(L, kid, ok) ==
+PutOK(L, key, kid, val, ok) ==
   /\ ctl \in {"kput", "rput"}
   /\ L = cur /\ Held(L)                                                    \* Order
-  /\ kid = (IF pid > 0 THEN pid ELSE L)
+  /\ key = cf.key /\ val = cf.val                                          \* the pair that was given
+  /\ kid = (IF cf.id > 0 THEN cf.id ELSE L)
 PutEff(L, kid, ok) ==
   /\ IF ok THEN /\ gl' = [gl EXCEPT ![L].key = kid]
                 /\ ctl' = (IF ctl = "kput" THEN "kka" ELSE "rka") /\ kac' = kac
           ELSE /\ gl' = [gl EXCEPT ![L].st = "orphan"]
                /\ ctl' = Failed(ctl) /\ kac' = KacFailed(ctl)
-  /\ UNCHANGED <<pid, ttl, quit, cur, pw, pt, rw, rt>>
+  /\ UNCHANGED <<cf, quit, cur, pw, pt, rw, rt>>
 
 KaliveOK(L, ok) ==
   /\ ctl \in {"kka", "rka"}
@@ -135,7 +137,7 @@ KaliveEff(L, ok) ==
                 /\ ctl' = "alive" /\ kac' = (IF ctl = "kka" THEN "ok" ELSE kac)
           ELSE /\ gl' = [gl EXCEPT ![L].st = "orphan"]
                /\ ctl' = Failed(ctl) /\ kac' = KacFailed(ctl)
-  /\ UNCHANGED <<pid, ttl, quit, cur, pw, pt, rw, rt>>
+  /\ UNCHANGED <<cf, quit, cur, pw, pt, rw, rt>>
 
 RevokeOK(L, ok) ==
   /\ ctl \in {"rvlost", "rvpause", "rvquit"}                               \* RevokeCurrent
@@ -143,34 +145,34 @@ RevokeOK(L, ok) ==
 RevokeEff(L, ok) ==
   /\ gl' = [gl EXCEPT ![L].st = IF ok THEN "revoked" ELSE "revfail"]
   /\ ctl' = CASE ctl = "rvlost" -> "tick" [] ctl = "rvpause" -> "paused" [] OTHER -> "idle"
-  /\ UNCHANGED <<pid, ttl, quit, cur, kac, pw, pt, rw, rt>>
+  /\ UNCHANGED <<cf, quit, cur, kac, pw, pt, rw, rt>>
 
 \* ---------------------------------------------------------------- environment
 CloseOK(L) == L \in Leases /\ gl[L].ka = "open"
-CloseEff(L) == gl' = [gl EXCEPT ![L].ka = "closed"] /\ UNCHANGED <<pid, ttl, ctl, quit, cur, kac, pw, pt, rw, rt>>
+CloseEff(L) == gl' = [gl EXCEPT ![L].ka = "closed"] /\ UNCHANGED <<cf, ctl, quit, cur, kac, pw, pt, rw, rt>>
 KaRespOK(L) == L \in Leases /\ gl[L].ka = "open"
 KaRespEff == UNCHANGED pvars
 
 \* ---------------------------------------------------------------- unobservable instants
 SeeClosedOK == ctl = "alive" /\ gl[cur].ka = "closed"
-SeeClosedEff == ctl' = "rvlost" /\ UNCHANGED <<pid, ttl, quit, cur, gl, kac, pw, pt, rw, rt>>
+SeeClosedEff == ctl' = "rvlost" /\ UNCHANGED <<cf, quit, cur, gl, kac, pw, pt, rw, rt>>
 
 TakePauseOK == ctl = "alive" /\ pw > 0
 TakePauseEff == ctl' = "rvpause" /\ pw' = pw - 1 /\ pt' = pt + 1
-                /\ UNCHANGED <<pid, ttl, quit, cur, gl, kac, rw, rt>>
+                /\ UNCHANGED <<cf, quit, cur, gl, kac, rw, rt>>
 
 SeeQuitOK == ctl \in {"alive", "paused"} /\ quit # "open"
 SeeQuitEff == ctl' = (IF ctl = "alive" THEN "rvquit" ELSE "idle")
-              /\ UNCHANGED <<pid, ttl, quit, cur, gl, kac, pw, pt, rw, rt>>
+              /\ UNCHANGED <<cf, quit, cur, gl, kac, pw, pt, rw, rt>>
 
 TakeResumeOK == ctl = "paused" /\ rw > 0
 TakeResumeEff == ctl' = "tick" /\ rw' = rw - 1 /\ rt' = rt + 1
-                 /\ UNCHANGED <<pid, ttl, quit, cur, gl, kac, pw, pt>>
+                 /\ UNCHANGED <<cf, quit, cur, gl, kac, pw, pt>>
 
 \* the tick at which doKeepAlive looks at quit: go = TRUE -> register again, FALSE -> leave
 TickOK(go) == ctl = "tick" /\ (go => quit # "closed") /\ (~go => quit # "open")   \* Stopped
 TickEff(go) == ctl' = (IF go THEN "rgrant" ELSE "idle")
-               /\ UNCHANGED <<pid, ttl, quit, cur, gl, kac, pw, pt, rw, rt>>
+               /\ UNCHANGED <<cf, quit, cur, gl, kac, pw, pt, rw, rt>>
 
 \* ---------------------------------------------------------------- observation
 \* nothing can move on its own (a loop waiting for its tick does not count as moving when the
